@@ -171,3 +171,34 @@ Proof.
   intros Hne H. unfold overrun_remainder. destruct sep as [|b sep'] eqn:Es; [congruence|]. rewrite <- Es in *.
   rewrite (occ_firstn _ _ _ H). rewrite bytes_eqb_refl. apply skipn_skipn.
 Qed.
+
+(* ---- the remainder kept after a "separator not found" overrun ---- *)
+Definition sep_pfx (sep x : bytes) : bool := bytes_eqb (firstn (length sep) x) (firstn (length x) sep).
+
+Lemma strip_spec sep r :
+  exists k, k <= length r /\ strip_to_sep_prefix sep r = skipn k r /\
+            forall j, j < k -> sep_pfx sep (skipn j r) = false.
+Proof.
+  induction r as [|x r IH].
+  - exists 0. repeat split; [simpl; lia | intros; lia].
+  - cbn [strip_to_sep_prefix]. fold (sep_pfx sep (x :: r)). destruct (sep_pfx sep (x :: r)) eqn:E.
+    + exists 0. repeat split; [simpl; lia | intros; lia].
+    + destruct IH as (k & Hk & Hs & Hj). exists (S k). repeat split; [simpl; lia | exact Hs |].
+      intros [|j] Hlt; [exact E | apply Hj; lia].
+Qed.
+
+(* a proper prefix of an occurrence is a separator prefix *)
+Lemma sep_pfx_of_occ sep (s : bytes) q m :
+  occ sep s q = true -> m < length sep -> sep_pfx sep (firstn m (skipn q s)) = true.
+Proof.
+  intros Ho Hm. unfold occ in Ho. apply prefixb_spec in Ho as [t Ht]. rewrite Ht.
+  rewrite firstn_app_le by lia. unfold sep_pfx. rewrite firstn_length, Nat.min_l by lia.
+  rewrite firstn_firstn. rewrite Nat.min_r by lia. apply bytes_eqb_refl.
+Qed.
+
+Lemma overrun_remainder_ne sep buf c :
+  sep <> [] ->
+  overrun_remainder sep buf c =
+    if bytes_eqb (firstn (length sep) (skipn c buf)) sep then skipn (length sep) (skipn c buf)
+    else strip_to_sep_prefix sep (skipn c buf).
+Proof. intros H. unfold overrun_remainder. destruct sep; [congruence | reflexivity]. Qed.
